@@ -16,8 +16,19 @@ decision written from the property statement with its own address parser (socket
   undecided         everything else (loopback destination while listening on one specific non-loopback interface,
                     inet_aton short forms such as 127.1, names like localhost.localdomain, IPv4-mapped forms of a
                     specific listen address): only totality is required.
+
+Runtime leg (real listeners, histories): a real ``Proxyserver`` with real loopback/wildcard sockets goes through a random
+history of ``Servers.update`` calls (listeners added, removed, restarted at runtime; tcp, udp and "both" modes) while a
+concurrent task keeps calling ``server_connect`` (every tick / every other tick / from the ``servers.changed`` signal / not at
+all) exactly as connection handlers do while the proxy is serving traffic.  After every step the same reference decision is
+applied to a sweep of spellings against every listener the *history* says is running and an OS-level probe (bind ->
+EADDRINUSE) confirms is listening -- never against what ``listen_addrs`` reports -- and against the ports of listeners that
+were stopped (must not be refused any more).
 """
+import asyncio
+import errno
 import itertools
+import logging
 import re
 import socket
 
@@ -25,6 +36,7 @@ from mitmproxy import connection
 from mitmproxy.addons.proxyserver import Proxyserver
 from mitmproxy.proxy import mode_specs
 from mitmproxy.proxy import server_hooks
+from mitmproxy.test import taddons
 
 PROPERTY = "C23"
 LEVEL = "exploration"
@@ -32,23 +44,31 @@ ENGINE = "direct"
 TECHNIQUE = "enumeration of destination spellings x listener configurations against a reference self-connect predicate"
 BUDGET = {"quick": (4_000, 14), "thorough": (300_000, 120)}
 WORKERS = {"quick": 2, "thorough": 16}
-REQUIRED = ["must_refuse", "must_not_refuse", "refused_some", "accepted_some", "undecided_total_only"]
+REQUIRED = ["must_refuse", "must_not_refuse", "refused_some", "accepted_some", "undecided_total_only",
+            "runtime.histories", "runtime.concurrent_vets", "runtime.must_refuse", "runtime.must_not_refuse", "runtime.confirmed_listeners"]
 RULE = (
     "case = (destination host spelling, destination port, transport, listener set); all fixed spellings (localhost in 8 "
     "case/dot variants, 12 addresses of 127/8 incl. block edges, 6 spellings of ::1, 4 IPv4-mapped loopbacks, 0.0.0.0, ::, "
     "listen-address echoes, public names/addresses, undecided oddities) x 11 listen-address configurations x 5 listener modes "
     "(tcp, udp, both) x same/different port x tcp/udp are enumerated in both tiers; random cases add random 127/8 and "
     "mapped addresses, random case patterns and multi-listener sets; distinct = (host spelling class, listen config, listener "
-    "transport, connection transport, port relation); non-trivial = same port and same transport (the host spelling decides)"
+    "transport, connection transport, port relation); non-trivial = same port and same transport (the host spelling decides). "
+    "Runtime histories (about 2% of the random cases in quick): 2-4 real listeners (9 mode templates x 127.0.0.1/::1/all/localhost, "
+    "harness-chosen free ports), 2-6 update steps (add/remove/restart) each under a vetting policy (every tick, alternate, on "
+    "servers.changed, none), sweep of 14+ spellings x tcp/udp per running and per stopped listener after every step; distinct = "
+    "(listener mode/host kinds, policies, steps, restart); non-trivial = a listener was started while server_connect ran concurrently"
 )
 ASSUMPTIONS = [
     "listen_addrs have the shape of socket.getsockname() results; the listener's transport is mode.transport_protocol",
     "a loopback destination while listening on one specific non-loopback interface is outside the statement (undecided)",
+    "runtime leg: a listener counts as mitmproxy's own socket once the Servers.update call that started it has returned and until "
+    "the update that removes it has returned; refusals during a start/stop in flight are not judged",
 ]
 LEVEL_TEXT = (
     "The spelling classes named in the property are enumerated completely against every listener shape mitmproxy can "
     "produce, so each class x configuration combination is exercised; the interior of 127.0.0.0/8 and letter-case patterns "
-    "are sampled."
+    "are sampled. Runtime histories with real sockets and a concurrent server_connect caller sample the interleavings of "
+    "listener start/stop with connection vetting."
 )
 LEVEL_NOTE = "Trusted: the 40-line reference predicate below and socket.inet_pton."
 
@@ -193,6 +213,42 @@ def classify(hclass, host, listeners, transport, port):
     return None
 
 
+def vet(ps, host, port, transport):
+    """Run the real server_connect hook the way ConnectionHandler.open_connection does -> server.error"""
+    server = connection.Server(address=(host, port), transport_protocol=transport)
+    client = connection.Client(peername=("192.0.2.1", 51234), sockname=("192.0.2.99", 8080), timestamp_start=1.0)
+    ps.server_connect(server_hooks.ServerConnectionHookData(server=server, client=client))
+    return server.error
+
+
+def judge(ctx, ps, hclass, host, port, transport, listeners, pfx="", extra=None):
+    """Call the real hook on ps and compare with the reference decision for the ground-truth listeners."""
+    wit = {"host": host, "port": port, "transport": transport, "listeners": listeners, **(extra or {})}
+    ctx.count(pfx + "total")
+    try:
+        error = vet(ps, host, port, transport)
+    except Exception as e:
+        ctx.violation(pfx + "server_connect-raises", {**wit, "exc": repr(e)})
+        return None
+    refused = bool(error)
+    if refused and "destination unknown" not in error.lower():
+        ctx.violation(pfx + "wrong-error-text", {**wit, "error": error})
+    exp = ref_decision(host, port, transport, listeners)
+    ctx.count(pfx + ("refused_some" if refused else "accepted_some"))
+    if exp is True:
+        ctx.count(pfx + "must_refuse")
+        if not refused:
+            ctx.violation(pfx + "self-connect-not-refused", wit,
+                          mechanism=classify(hclass, host, listeners, transport, port) if not pfx else None)
+    elif exp is False:
+        ctx.count(pfx + "must_not_refuse")
+        if refused:
+            ctx.violation(pfx + "refused-wrongly", {**wit, "error": error})
+    else:
+        ctx.count(pfx + "undecided_total_only")
+    return refused
+
+
 def evaluate(ctx, hclass, host, port, transport, servers_spec):
     """servers_spec: [(mode name, listen key, listen port)]"""
     ps = Proxyserver()
@@ -203,32 +259,139 @@ def evaluate(ctx, hclass, host, port, transport, servers_spec):
         for a in addrs:
             listeners.append((a[0], a[1], MODES[mname].transport_protocol))
     ps.servers = stubs  # type: ignore
-    server = connection.Server(address=(host, port), transport_protocol=transport)
-    client = connection.Client(peername=("192.0.2.1", 51234), sockname=("192.0.2.99", 8080), timestamp_start=1.0)
-    data = server_hooks.ServerConnectionHookData(server=server, client=client)
-    wit = {"host": host, "port": port, "transport": transport, "listeners": listeners}
-    ctx.count("total")
+    return judge(ctx, ps, hclass, host, port, transport, listeners)
+
+
+# ---- runtime leg: real listeners, histories of Servers.update interleaved with server_connect ------------------------------
+
+RT_TEMPLATES = ["regular", "regular", "socks5", "upstream:http://example.com:8080", "reverse:http://example.com", "reverse:tcp://example.com:80",
+                "dns", "reverse:dns://8.8.8.8", "reverse:quic://example.com", "reverse:udp://example.com:53"]
+RT_HOSTS = ["127.0.0.1", "127.0.0.1", "127.0.0.1", "::1", "", "localhost"]
+RT_TRUTH_HOSTS = {"127.0.0.1": ["127.0.0.1"], "::1": ["::1"], "": ["0.0.0.0", "::"], "localhost": ["127.0.0.1"]}
+RT_SWEEP = [("localhost-name", "localhost"), ("localhost-name", "LocalHost."), ("v4-loopback", "127.0.0.1"), ("v4-loopback", "127.8.9.10"),
+            ("v6-loopback", "::1"), ("v6-loopback", "0:0:0:0:0:0:0:1"), ("mapped-loopback", "::ffff:127.0.0.1"), ("wildcard", "0.0.0.0"),
+            ("wildcard", "::"), ("public", "example.com"), ("public", "8.8.8.8"), ("public", "2001:db8::77")]
+POLICIES = ["every-tick", "every-tick", "alternate", "on-changed", "none"]
+
+
+def free_port() -> int:
+    with socket.socket() as s:
+        s.bind(("127.0.0.1", 0))
+        return s.getsockname()[1]
+
+
+def os_listening(host: str, port: int, transport: str) -> bool:
+    """OS-level ground truth: binding the address fails with EADDRINUSE iff some socket already owns it."""
+    fam = socket.AF_INET6 if ":" in host else socket.AF_INET
+    s = socket.socket(fam, socket.SOCK_STREAM if transport == "tcp" else socket.SOCK_DGRAM)
     try:
-        ps.server_connect(data)
-    except Exception as e:
-        ctx.violation("server_connect-raises", {**wit, "exc": repr(e)})
-        return None
-    refused = bool(server.error)
-    if refused and "destination unknown" not in server.error.lower():
-        ctx.violation("wrong-error-text", {**wit, "error": server.error})
-    exp = ref_decision(host, port, transport, listeners)
-    ctx.count("refused_some" if refused else "accepted_some")
-    if exp is True:
-        ctx.count("must_refuse")
-        if not refused:
-            ctx.violation("self-connect-not-refused", wit, mechanism=classify(hclass, host, listeners, transport, port))
-    elif exp is False:
-        ctx.count("must_not_refuse")
-        if refused:
-            ctx.violation("refused-wrongly", {**wit, "error": server.error})
-    else:
-        ctx.count("undecided_total_only")
-    return refused
+        s.bind((host, port))
+        return False
+    except OSError as e:
+        return e.errno == errno.EADDRINUSE
+    finally:
+        s.close()
+
+
+async def run_history(ctx, r):
+    """-> (signature, nontrivial, sample)"""
+    ps = Proxyserver()
+    cands = []  # (spec string, ProxyMode, listen host option, port)
+    for _ in range(r.choice([2, 2, 3, 4])):
+        tmpl, host, port = r.choice(RT_TEMPLATES), r.choice(RT_HOSTS), free_port()
+        spec = f"{tmpl}@{host}:{port}" if host else f"{tmpl}@{port}"
+        cands.append((spec, mode_specs.ProxyMode.parse(spec), host, port))
+    stats = {"concurrent": 0, "started_under_vetting": 0}
+    log = []
+    with taddons.context(ps) as tctx:
+        tctx.configure(ps, server=True)
+        ps.running()
+        keep = []
+
+        def on_changed():
+            # what a UI does when the set of servers changes (status bar redraw) + a connection being vetted
+            ps.listen_addrs()
+            vet(ps, "example.com", 443, "tcp")
+            stats["concurrent"] += 1
+
+        current: set[int] = set()
+        ever_started: set[int] = set()
+        failed: set[int] = set()
+        steps = r.randint(2, 6)
+        policies_used, restarted = set(), False
+        for step in range(steps):
+            # next target set
+            k = r.random()
+            if k < 0.25 and current:
+                idx = r.choice(sorted(current))  # restart: remove, then add again
+                plan = [current - {idx}, set(current)]
+                restarted = True
+            else:
+                target = set(current)
+                for _ in range(r.choice([1, 1, 2])):
+                    target ^= {r.randrange(len(cands))}
+                if target == current:
+                    target ^= {r.randrange(len(cands))}
+                plan = [target]
+            for target in plan:
+                policy = r.choice(POLICIES)
+                policies_used.add(policy)
+                starting = target - current
+                if policy == "on-changed":
+                    ps.servers.changed.connect(on_changed)
+                    keep.append(on_changed)
+                upd = asyncio.ensure_future(ps.servers.update([cands[i][1] for i in sorted(target)]))
+                tick = 0
+                while not upd.done():
+                    if policy == "every-tick" or (policy == "alternate" and tick % 2):
+                        # connections being vetted while listeners start/stop: unrelated destinations and the new ports
+                        vet(ps, "example.com", 443, r.choice(["tcp", "udp"]))
+                        if starting and r.random() < 0.3:
+                            vet(ps, "localhost", cands[r.choice(sorted(starting))][3], "tcp")
+                        stats["concurrent"] += 1
+                    tick += 1
+                    await asyncio.sleep(0)
+                ok = upd.result()
+                if policy == "on-changed":
+                    ps.servers.changed.disconnect(on_changed)
+                if starting and policy != "none":
+                    stats["started_under_vetting"] += 1
+                # a failed update (e.g. the harness-chosen port was grabbed by another process meanwhile) leaves the listeners
+                # started in this step in an unknown state: they are not judged until they have been removed again
+                failed = (failed & target) | (starting if not ok else set())
+                current = set(target)
+                ever_started |= target
+                log.append({"modes": [cands[i][0] for i in sorted(target)], "policy": policy, "update_ok": ok})
+                # ---- sweep after this step
+                truth, confirmed_ports = [], set()
+                for i in sorted(current - failed):
+                    spec, mode, host, port = cands[i]
+                    trans = ["tcp", "udp"] if mode.transport_protocol == "both" else [mode.transport_protocol]
+                    if all(os_listening(RT_TRUTH_HOSTS[host][0], port, t) for t in trans):
+                        ctx.count("runtime.confirmed_listeners")
+                        confirmed_ports.add(port)
+                        for th in RT_TRUTH_HOSTS[host]:
+                            truth.append((th, port, mode.transport_protocol))
+                    else:
+                        ctx.count("runtime.unconfirmed_listeners")  # e.g. the port was taken by someone else: nothing to judge
+                stopped_ports = {cands[i][3] for i in ever_started - current}
+                if not ok:
+                    stopped_ports = set()  # a stop may have failed as well
+                extra = {"history": log[-6:], "step": step}
+                for port in sorted(confirmed_ports | stopped_ports):
+                    sweep = RT_SWEEP + [r.choice(ALL_SPELLINGS) for _ in range(2)]
+                    lhosts = [h for h, p, _ in truth if p == port]
+                    if lhosts:
+                        sweep = sweep + [("listen-echo", lhosts[0])]
+                    for hclass, host in sweep:
+                        for transport in ("tcp", "udp"):
+                            judge(ctx, ps, hclass, host, port, transport, truth, pfx="runtime.", extra=extra)
+        await ps.servers.update([])
+    ctx.count("runtime.histories")
+    ctx.count("runtime.concurrent_vets", stats["concurrent"])
+    kinds = tuple(sorted({(m.type_name, m.transport_protocol, h or "all") for _, m, h, _ in cands}))
+    sig = ("hist", kinds, tuple(sorted(policies_used)), steps, restarted)
+    return sig, stats["started_under_vetting"] > 0, {"leg": "runtime", "history": log[:6], "concurrent_server_connect_calls": stats["concurrent"]}
 
 
 def rand_case(s: str, r):
@@ -236,6 +399,17 @@ def rand_case(s: str, r):
 
 
 def run(ctx):
+    loop = asyncio.new_event_loop()
+    logging.disable(logging.CRITICAL)  # listener start/stop is logged at INFO
+    try:
+        _run(ctx, loop)
+    finally:
+        logging.disable(logging.NOTSET)
+        loop.close()
+
+
+def _run(ctx, loop):
+    p_hist = 0.02 if ctx.tier == "quick" else 0.003
     lkeys = list(LISTEN)
     items = list(itertools.product(range(len(ALL_SPELLINGS)), lkeys, LISTENER_MODES, (True, False), ("tcp", "udp")))
     n_enum = len(items)
@@ -254,6 +428,14 @@ def run(ctx):
                      nontrivial=same_port and lt in (transport, "both") and lkey != "none",
                      sample={"host": host, "port": port, "transport": transport, "listen": lkey, "listener_mode": mname, "refused": refd}
                      if i % 577 == 11 else None)
+            continue
+        if r.random() < p_hist or (i - n_enum) < 6:
+            try:
+                sig, nontrivial, sample = loop.run_until_complete(asyncio.wait_for(run_history(ctx, r), 15))
+            except asyncio.TimeoutError:
+                ctx.count("inconclusive_cases")
+                sig, nontrivial, sample = ("hist-timeout",), False, None
+            ctx.case(sig, nontrivial=nontrivial, sample=sample)
             continue
         # random: random member of a spelling class, 1-3 listeners
         k = r.random()
